@@ -559,6 +559,62 @@ theorem reconnectLink_grace (l : FLink F) (g now : Nat) :
   dsimp only
   split <;> rfl
 
+/-- The link part of the reconnect branch when the socket re-creation FAILS (`reconnect_uplink` returns
+`Err` before touching the connection): `record_attempt`, then the `mark_for_recovery` fallback — no
+`reset_for_reconnect`, no `mark_success` (the failure counter `record_attempt` incremented stays), no
+`reset_startup_grace`. -/
+def failedLink (l : FLink F) (now : Nat) : FLink F := (l.recordAttempt now).markForRecovery
+
+/-- The reconnect branch, the outcome of the socket re-creation being a parameter. -/
+def attemptLink (fails : Bool) (l : FLink F) (now : Nat) : FLink F :=
+  if fails then failedLink l now else reconnectLink l now
+
+theorem failedLink_fields (l : FLink F) (now : Nat) :
+    (failedLink l now).lastAttemptMs = now ∧
+    (failedLink l now).failCount = (if l.established = 0 then l.failCount else min (l.failCount + 1) 4294967295) ∧
+    (failedLink l now).established = l.established ∧
+    (failedLink l now).graceDeadline = 0 ∧
+    (failedLink l now).core.connId = l.core.connId ∧
+    (failedLink l now).core.phase = .registering ∧
+    (failedLink l now).core.lastReceived = none ∧
+    (failedLink l now).connTimeoutMs = l.connTimeoutMs ∧
+    Clean (failedLink l now) := by
+  have hI := wconsts.2.2.1
+  unfold failedLink FLink.recordAttempt
+  by_cases he : l.established = 0
+  · simp only [he, beq_self_eq_true, if_true]
+    exact ⟨rfl, rfl, rfl, rfl, rfl, rfl, rfl, rfl, clean_markForRecovery _⟩
+  · have : (l.established == 0) = false := by simpa using he
+    simp only [this, Bool.false_eq_true, if_false, he]
+    exact ⟨rfl, rfl, rfl, rfl, rfl, rfl, rfl, rfl, clean_markForRecovery _⟩
+
+/-- What both outcomes of a reconnect attempt share. -/
+theorem attemptLink_fields (fails : Bool) (l : FLink F) (now : Nat) :
+    (attemptLink fails l now).lastAttemptMs = now ∧
+    (attemptLink fails l now).established = l.established ∧
+    (attemptLink fails l now).core.connId = l.core.connId ∧
+    (attemptLink fails l now).core.phase = .registering ∧
+    (attemptLink fails l now).core.lastReceived = none ∧
+    (attemptLink fails l now).connTimeoutMs = l.connTimeoutMs ∧
+    Clean (attemptLink fails l now) := by
+  cases fails
+  · obtain ⟨f1, -, f3, -, f5, f6, f7, -, f9, f10⟩ := reconnectLink_fields l now
+    exact ⟨f1, f3, f5, f6, f7, f9, f10⟩
+  · obtain ⟨f1, -, f3, -, f5, f6, f7, f8, f9⟩ := failedLink_fields l now
+    exact ⟨f1, f3, f5, f6, f7, f8, f9⟩
+
+theorem failedLink_grace (l : FLink F) (g now : Nat) :
+    failedLink { l with graceDeadline := g } now = failedLink l now := by
+  unfold failedLink FLink.recordAttempt
+  dsimp only
+  split <;> rfl
+
+theorem attemptLink_grace (fails : Bool) (l : FLink F) (g now : Nat) :
+    attemptLink fails { l with graceDeadline := g } now = attemptLink fails l now := by
+  cases fails
+  · exact reconnectLink_grace l g now
+  · exact failedLink_grace l g now
+
 /-! ## 4. The per-link loop of housekeeping as a map -/
 
 /-- Link part of the not-timed-out branch (keepalives, window recovery unless classic, bitrate,
@@ -576,15 +632,42 @@ def aliveWire (now : Nat) (l : FLink F) : List (Nat × Sys.Bytes) :=
   (if l.needsKeepalive now then [(l.core.connId, (l.keepalivePacket now).2)] else []) ++
   (if l1.needsRttMeasurement now then [(l.core.connId, (l1.keepalivePacket now).2)] else [])
 
-/-- What one housekeeping pass does to the link at index `i`, given the pending-REG2 index. -/
-def hkLink (classic : Bool) (now : Nat) (pending : Option Nat) (i : Nat) (l : FLink F) : FLink F :=
+/-- What one housekeeping pass does to the link at index `i`, given the pending-REG2 index and whether
+the socket re-creation of a reconnect attempt of this link fails (`fails`: its conn id is in the
+bind-failure list when the loop reaches it). -/
+def hkLink (classic : Bool) (now : Nat) (pending : Option Nat) (fails : Bool) (i : Nat) (l : FLink F) : FLink F :=
   if l.isTimedOut now then
     if l.shouldAttemptReconnect now then
       match pending with
-      | some p => if p = i then withSent (reconnectLink l now) (some now) else reconnectLink l now
-      | none => withSent (reconnectLink l now) (some now)
+      | some p => if p = i then withSent (attemptLink fails l now) (some now) else attemptLink fails l now
+      | none => withSent (attemptLink fails l now) (some now)
     else l
   else aliveLink classic now l
+
+/-- The bind-failure list after one link was handled: a reconnect attempt of a link whose conn id is in
+the list consumes one entry. -/
+def hkFb (now : Nat) (fb : List Nat) (l : FLink F) : List Nat :=
+  if l.isTimedOut now && l.shouldAttemptReconnect now && fb.contains l.core.connId then fb.erase l.core.connId
+  else fb
+
+theorem hkBindLeft_cons (now : Nat) (l : FLink F) (rest : List (FLink F)) (fb : List Nat) :
+    hkBindLeft now (l :: rest) fb = hkBindLeft now rest (hkFb now fb l) := by
+  rw [hkBindLeft]
+  unfold hkFb
+  split <;> rfl
+
+/-- Injections are only ever consumed. -/
+theorem hkBindLeft_mem (now : Nat) (ls : List (FLink F)) (fb : List Nat) (a : Nat)
+    (h : a ∈ hkBindLeft now ls fb) : a ∈ fb := by
+  induction ls generalizing fb with
+  | nil => exact h
+  | cons l rest ih =>
+    rw [hkBindLeft_cons] at h
+    have := ih _ h
+    unfold hkFb at this
+    split at this
+    · exact List.mem_of_mem_erase this
+    · exact this
 
 /-- What it puts on the wire for that link. -/
 def hkWire (now : Nat) (reg : Reg.Reg) (i : Nat) (l : FLink F) : List (Nat × Sys.Bytes) :=
@@ -603,13 +686,14 @@ def hkReg (now : Nat) (reg : Reg.Reg) (i : Nat) (l : FLink F) : Reg.Reg :=
   else reg
 
 theorem hkLinksGo_cons (classic : Bool) (now : Nat) (l : FLink F) (rest : List (FLink F)) (i : Nat)
-    (reg : Reg.Reg) :
-    hkLinksGo classic now (l :: rest) i reg =
-      (hkLink classic now reg.pending i l :: (hkLinksGo classic now rest (i + 1) (hkReg now reg i l)).1,
-       (hkLinksGo classic now rest (i + 1) (hkReg now reg i l)).2.1,
-       hkWire now reg i l ++ (hkLinksGo classic now rest (i + 1) (hkReg now reg i l)).2.2) := by
+    (reg : Reg.Reg) (fb : List Nat) :
+    hkLinksGo classic now (l :: rest) i reg fb =
+      (hkLink classic now reg.pending (fb.contains l.core.connId) i l ::
+         (hkLinksGo classic now rest (i + 1) (hkReg now reg i l) (hkFb now fb l)).1,
+       (hkLinksGo classic now rest (i + 1) (hkReg now reg i l) (hkFb now fb l)).2.1,
+       hkWire now reg i l ++ (hkLinksGo classic now rest (i + 1) (hkReg now reg i l) (hkFb now fb l)).2.2) := by
   rw [hkLinksGo]
-  unfold hkLink hkWire hkReg
+  unfold hkLink hkWire hkReg hkFb
   cases hto : l.isTimedOut now
   · simp only [Bool.false_eq_true, if_false, Bool.false_and]
     unfold aliveLink aliveWire
@@ -625,17 +709,35 @@ theorem hkLinksGo_cons (classic : Bool) (now : Nat) (l : FLink F) (rest : List (
   · cases hsa : l.shouldAttemptReconnect now
     · simp only [if_true, Bool.false_eq_true, if_false, Bool.true_and, Bool.false_and, List.nil_append]
     · simp only [if_true, Bool.true_and]
-      cases hp : reg.pending with
-      | none =>
-        simp only [beq_iff_eq, reduceCtorEq, if_false]
-        rfl
-      | some p =>
-        simp only [beq_iff_eq, Option.some.injEq]
-        by_cases hpi : p = i
-        · simp only [hpi, if_true]
+      cases hf : fb.contains l.core.connId
+      · simp only [Bool.false_eq_true, if_false]
+        unfold attemptLink
+        simp only [Bool.false_eq_true, if_false]
+        cases hp : reg.pending with
+        | none =>
+          simp only [beq_iff_eq, reduceCtorEq, if_false]
           rfl
-        · simp only [hpi, if_false, List.nil_append]
+        | some p =>
+          simp only [beq_iff_eq, Option.some.injEq]
+          by_cases hpi : p = i
+          · simp only [hpi, if_true]
+            rfl
+          · simp only [hpi, if_false, List.nil_append]
+            rfl
+      · simp only [if_true]
+        unfold attemptLink
+        simp only [if_true]
+        cases hp : reg.pending with
+        | none =>
+          simp only [beq_iff_eq, reduceCtorEq, if_false]
           rfl
+        | some p =>
+          simp only [beq_iff_eq, Option.some.injEq]
+          by_cases hpi : p = i
+          · simp only [hpi, if_true]
+            rfl
+          · simp only [hpi, if_false, List.nil_append]
+            rfl
 
 theorem hkReg_fields (now : Nat) (reg : Reg.Reg) (i : Nat) (l : FLink F) :
     (hkReg now reg i l).pending = reg.pending ∧ (hkReg now reg i l).hasConnected = reg.hasConnected ∧
@@ -649,19 +751,23 @@ theorem hkReg_fields (now : Nat) (reg : Reg.Reg) (i : Nat) (l : FLink F) :
   · exact ⟨rfl, rfl, rfl, rfl, rfl⟩
 
 /-- **The loop is a map**: the record of link `j` after the pass is a function of that link's own
-record, its index and the (loop-invariant) pending-REG2 index only. -/
-theorem hkLinksGo_links (classic : Bool) (now : Nat) (ls : List (FLink F)) (i : Nat) (reg : Reg.Reg) :
-    (hkLinksGo classic now ls i reg).1 = ls.mapIdx (fun j l => hkLink classic now reg.pending (i + j) l) ∧
-    (hkLinksGo classic now ls i reg).2.1.pending = reg.pending ∧
-    (hkLinksGo classic now ls i reg).2.1.hasConnected = reg.hasConnected ∧
-    (hkLinksGo classic now ls i reg).2.1.id = reg.id ∧
-    (hkLinksGo classic now ls i reg).2.1.active = reg.active ∧
-    (hkLinksGo classic now ls i reg).2.1.probing = reg.probing := by
-  induction ls generalizing i reg with
+record, its index, the (loop-invariant) pending-REG2 index and whether a bind failure is injected for
+its conn id when the loop reaches it (`hkBindLeft` over the links before it) only. -/
+theorem hkLinksGo_links (classic : Bool) (now : Nat) (ls : List (FLink F)) (i : Nat) (reg : Reg.Reg)
+    (fb : List Nat) :
+    (hkLinksGo classic now ls i reg fb).1 =
+      ls.mapIdx (fun j l => hkLink classic now reg.pending
+        ((hkBindLeft now (ls.take j) fb).contains l.core.connId) (i + j) l) ∧
+    (hkLinksGo classic now ls i reg fb).2.1.pending = reg.pending ∧
+    (hkLinksGo classic now ls i reg fb).2.1.hasConnected = reg.hasConnected ∧
+    (hkLinksGo classic now ls i reg fb).2.1.id = reg.id ∧
+    (hkLinksGo classic now ls i reg fb).2.1.active = reg.active ∧
+    (hkLinksGo classic now ls i reg fb).2.1.probing = reg.probing := by
+  induction ls generalizing i reg fb with
   | nil => exact ⟨rfl, rfl, rfl, rfl, rfl, rfl⟩
   | cons l rest ih =>
     rw [hkLinksGo_cons]
-    obtain ⟨h1, h2, h3, h4, h5, h6⟩ := ih (i + 1) (hkReg now reg i l)
+    obtain ⟨h1, h2, h3, h4, h5, h6⟩ := ih (i + 1) (hkReg now reg i l) (hkFb now fb l)
     obtain ⟨g1, g2, g3, g4, g5⟩ := hkReg_fields now reg i l
     refine ⟨?_, h2.trans g1, h3.trans g2, h4.trans g3, h5.trans g4, h6.trans g5⟩
     dsimp only
@@ -672,7 +778,9 @@ theorem hkLinksGo_links (classic : Bool) (now : Nat) (ls : List (FLink F)) (i : 
     simp only [List.getElem?_mapIdx]
     cases rest[k]? with
     | none => rfl
-    | some x => simp only [Option.map_some]; congr 2; omega
+    | some x =>
+      simp only [Option.map_some, List.take_succ_cons, hkBindLeft_cons]
+      congr 2; omega
 
 /-! ## 5. `handle_housekeeping` in stages -/
 
@@ -692,7 +800,7 @@ def hkP1 (s : Sys F) (now : Nat) : Reg.Reg × List (FLink F) :=
 
 /-- Stage 2: the per-link loop. -/
 def hkP2 (s : Sys F) (now : Nat) : List (FLink F) × Reg.Reg × List (Nat × Sys.Bytes) :=
-  hkLinksGo s.cfg.classic now (hkP1 s now).2 0 (hkP1 s now).1
+  hkLinksGo s.cfg.classic now (hkP1 s now).2 0 (hkP1 s now).1 s.failBind
 
 def hkP4 (s : Sys F) (now : Nat) : Reg.Reg × Reg.DriverSends :=
   Reg.regDriverPendingSends
@@ -716,8 +824,9 @@ theorem hk_eq (s : Sys F) (now : Nat) :
     (handleHousekeeping s now).1.links = (hkP6 s now).1 ∧
     (handleHousekeeping s now).1.reg = (hkP4 s now).1 ∧
     (handleHousekeeping s now).2.wire = (hkP2 s now).2.2 ++ (hkP5 s now).2 ++ (hkP6 s now).2 ∧
-    (handleHousekeeping s now).1.cfg = s.cfg ∧ (handleHousekeeping s now).1.failNext = s.failNext :=
-  ⟨rfl, rfl, rfl, rfl, rfl⟩
+    (handleHousekeeping s now).1.cfg = s.cfg ∧ (handleHousekeeping s now).1.failNext = s.failNext ∧
+    (handleHousekeeping s now).1.failBind = hkBindLeft now (hkP1 s now).2 s.failBind :=
+  ⟨rfl, rfl, rfl, rfl, rfl, rfl⟩
 
 /-- The link whose grace window stage 1 resets (probing completed in this very tick), if any. -/
 def hkGraceIdx (s : Sys F) (now : Nat) : Option Nat :=
@@ -819,22 +928,47 @@ theorem driver_hasConnected (r : Reg.Reg) (now : Nat) :
   repeat' split
   all_goals rfl
 
+/-- Does the socket re-creation of a reconnect attempt fail for the link at index `j` (conn id `cid`)
+in the tick at `now`?  Yes iff `cid` is still in the bind-failure list after the links before `j` were
+handled. -/
+def hkFails (s : Sys F) (now j cid : Nat) : Bool :=
+  (hkBindLeft now ((hkP1 s now).2.take j) s.failBind).contains cid
+
+/-- No injected bind failure for that conn id, no failure. -/
+theorem hkFails_false (s : Sys F) (now j cid : Nat) (h : cid ∉ s.failBind) : hkFails s now j cid = false := by
+  unfold hkFails
+  cases hc : (hkBindLeft now ((hkP1 s now).2.take j) s.failBind).contains cid
+  · rfl
+  · exact absurd (hkBindLeft_mem now _ _ cid (by simpa using hc)) h
+
+theorem hkFails_mem (s : Sys F) (now j cid : Nat) (h : hkFails s now j cid = true) : cid ∈ s.failBind :=
+  hkBindLeft_mem now _ _ cid (by simpa [hkFails] using h)
+
+theorem graceFix_connId (g : Option Nat) (now j : Nat) (l : FLink F) :
+    (graceFix g now j l).core.connId = l.core.connId := by
+  unfold graceFix; split <;> rfl
+
 /-- **Housekeeping, link by link**: the record of link `j` after a tick is `hkLink` of its own record
 (after the possible grace reset), up to a `last_sent` stamp by the registration driver. -/
 theorem hk_links (s : Sys F) (now : Nat) :
     ∃ τ : Nat → Option Nat → Option Nat,
       (handleHousekeeping s now).1.links =
         s.links.mapIdx (fun j l =>
-          let x := hkLink s.cfg.classic now (hkP1 s now).1.pending j (graceFix (hkGraceIdx s now) now j l)
+          let x := hkLink s.cfg.classic now (hkP1 s now).1.pending (hkFails s now j l.core.connId) j
+            (graceFix (hkGraceIdx s now) now j l)
           withSent x (τ j x.core.lastSent)) := by
   rw [(hk_eq s now).1]
   have h2 : (hkP2 s now).1 = s.links.mapIdx (fun j l =>
-      hkLink s.cfg.classic now (hkP1 s now).1.pending j (graceFix (hkGraceIdx s now) now j l)) := by
+      hkLink s.cfg.classic now (hkP1 s now).1.pending (hkFails s now j l.core.connId) j
+        (graceFix (hkGraceIdx s now) now j l)) := by
     unfold hkP2
-    rw [(hkLinksGo_links _ _ _ _ _).1, hkP1_links, List.mapIdx_mapIdx]
+    rw [(hkLinksGo_links _ _ _ _ _ _).1]
+    conv => lhs; arg 2; rw [hkP1_links]
+    rw [List.mapIdx_mapIdx]
     congr 1
     funext j l
-    simp
+    simp only [Function.comp, Nat.zero_add, graceFix_connId]
+    rfl
   -- stage 5: at most one extra stamp
   have h5 : ∃ τ5 : Nat → Option Nat → Option Nat, (hkP5 s now).1 = (hkP2 s now).1.mapIdx (fun j l => withSent l (τ5 j l.core.lastSent)) := by
     unfold hkP5
@@ -885,7 +1019,7 @@ theorem hk_hasConnected (s : Sys F) (now : Nat) :
   rw [driver_hasConnected]
   show (hkP2 s now).2.1.hasConnected = _
   unfold hkP2
-  rw [(hkLinksGo_links _ _ _ _ _).2.2.1]
+  rw [(hkLinksGo_links _ _ _ _ _ _).2.2.1]
   exact (hkP1_reg s now).1
 
 /-! ## 6. The data path: threshold flush, send-failure injection -/
@@ -1765,27 +1899,31 @@ theorem attempt_of_graceFix (g : Option Nat) (now j : Nat) (l : FLink F)
     (hto : (graceFix g now j l).isTimedOut now = true)
     (hsa : (graceFix g now j l).shouldAttemptReconnect now = true) :
     l.isTimedOut now = true ∧ l.shouldAttemptReconnect now = true ∧
-    reconnectLink (graceFix g now j l) now = reconnectLink l now := by
+    ∀ fails, attemptLink fails (graceFix g now j l) now = attemptLink fails l now := by
   rcases graceFix_cases g now j l with e | ⟨-, e⟩
-  · rw [e] at hto hsa ⊢; exact ⟨hto, hsa, rfl⟩
+  · rw [e] at hto hsa ⊢; exact ⟨hto, hsa, fun _ => rfl⟩
   · rw [e] at hto hsa ⊢
     by_cases he : l.established = 0
     · rw [shouldAttempt_in_grace l now he] at hsa; cases hsa
     · rw [isTimedOut_grace l _ now he] at hto
       rw [shouldAttempt_grace l _ now he] at hsa
-      exact ⟨hto, hsa, reconnectLink_grace l _ now⟩
+      exact ⟨hto, hsa, fun fails => attemptLink_grace fails l _ now⟩
 
-/-- What a housekeeping tick does to link `j`. -/
-inductive HkStep (hc : Bool) (now : Nat) (l l' : FLink F) : Prop
+/-- What a housekeeping tick does to link `j` (`fb` = the bind-failure injections pending when the tick
+starts). -/
+inductive HkStep (hc : Bool) (now : Nat) (fb : List Nat) (l l' : FLink F) : Prop
   | evolves (h : Evolves hc none l l')
   | attempt (hto : l.isTimedOut now = true) (hsa : l.shouldAttemptReconnect now = true)
       (hl : ∃ t, l' = withSent (reconnectLink l now) t)
+  /-- the reconnect attempt whose socket re-creation failed (an injected bind failure was pending) -/
+  | attemptFailed (hto : l.isTimedOut now = true) (hsa : l.shouldAttemptReconnect now = true)
+      (hfb : l.core.connId ∈ fb) (hl : ∃ t, l' = withSent (failedLink l now) t)
 
 theorem withSent_withSent (l : FLink F) (a b : Option Nat) : withSent (withSent l a) b = withSent l b := rfl
 
-theorem hkLink_step (hc : Bool) (classic : Bool) (now : Nat) (pending : Option Nat) (j : Nat)
-    (g : Option Nat) (l : FLink F) (t : Option Nat) :
-    HkStep hc now l (withSent (hkLink classic now pending j (graceFix g now j l)) t) := by
+theorem hkLink_step (hc : Bool) (classic : Bool) (now : Nat) (pending : Option Nat) (fails : Bool) (j : Nat)
+    (g : Option Nat) (l : FLink F) (t : Option Nat) (fb : List Nat) (hf : fails = true → l.core.connId ∈ fb) :
+    HkStep hc now fb l (withSent (hkLink classic now pending fails j (graceFix g now j l)) t) := by
   have hg : Evolves hc none l (graceFix g now j l) := by
     rcases graceFix_cases g now j l with e | ⟨-, e⟩ <;> rw [e]
     · exact Evolves.refl _ _ _
@@ -1796,44 +1934,57 @@ theorem hkLink_step (hc : Bool) (classic : Bool) (now : Nat) (pending : Option N
     split
     · rename_i hsa
       obtain ⟨a1, a2, a3⟩ := attempt_of_graceFix g now j l hto hsa
-      refine .attempt a1 a2 ?_
       rw [a3]
-      split
-      · split
+      cases fails
+      · refine .attempt a1 a2 ?_
+        unfold attemptLink
+        simp only [Bool.false_eq_true, if_false]
+        split
+        · split
+          · exact ⟨t, rfl⟩
+          · exact ⟨t, rfl⟩
         · exact ⟨t, rfl⟩
+      · refine .attemptFailed a1 a2 (hf rfl) ?_
+        unfold attemptLink
+        simp only [if_true]
+        split
+        · split
+          · exact ⟨t, rfl⟩
+          · exact ⟨t, rfl⟩
         · exact ⟨t, rfl⟩
-      · exact ⟨t, rfl⟩
     · exact .evolves (hg.trans (ev_withSent hc none _ t))
   · exact .evolves ((hg.trans (ev_aliveLink hc none classic now _)).trans (ev_withSent hc none _ t))
 
 /-- **Housekeeping event, link by link.** -/
 theorem hk_step (s : Sys F) (now : Nat) :
     (∀ (j : Nat) (l : FLink F), s.links[j]? = some l →
-      ∃ l', (handleHousekeeping s now).1.links[j]? = some l' ∧ HkStep s.reg.hasConnected now l l') ∧
+      ∃ l', (handleHousekeeping s now).1.links[j]? = some l' ∧ HkStep s.reg.hasConnected now s.failBind l l') ∧
     (handleHousekeeping s now).1.links.length = s.links.length := by
   obtain ⟨τ, h⟩ := hk_links s now
   rw [h]
   refine ⟨fun (j : Nat) (l : FLink F) hl => ?_, by simp⟩
   rw [List.getElem?_mapIdx, hl]
-  exact ⟨_, rfl, hkLink_step _ _ _ _ _ _ _ _⟩
+  exact ⟨_, rfl, hkLink_step _ _ _ _ _ _ _ _ _ _ (hkFails_mem s now j l.core.connId)⟩
 
-/-- The converse direction: a link the loop sees timed out and ready is re-attempted in this tick. -/
+/-- The converse direction: a link the loop sees timed out and ready is re-attempted in this tick; the
+socket re-creation fails iff a bind failure is pending for its conn id when the loop reaches it. -/
 theorem hk_attempts (s : Sys F) (now j : Nat) (l : FLink F) (hl : s.links[j]? = some l)
     (hto : l.isTimedOut now = true) (hsa : l.shouldAttemptReconnect now = true)
     (hg : hkGraceIdx s now ≠ some j ∨ l.established ≠ 0) :
-    ∃ t, (handleHousekeeping s now).1.links[j]? = some (withSent (reconnectLink l now) t) := by
+    ∃ t, (handleHousekeeping s now).1.links[j]? =
+      some (withSent (attemptLink (hkFails s now j l.core.connId) l now) t) := by
   obtain ⟨τ, h⟩ := hk_links s now
   rw [h, List.getElem?_mapIdx, hl]
   simp only [Option.map_some]
   have hview : (graceFix (hkGraceIdx s now) now j l).isTimedOut now = true ∧
       (graceFix (hkGraceIdx s now) now j l).shouldAttemptReconnect now = true ∧
-      reconnectLink (graceFix (hkGraceIdx s now) now j l) now = reconnectLink l now := by
+      ∀ fails, attemptLink fails (graceFix (hkGraceIdx s now) now j l) now = attemptLink fails l now := by
     rcases graceFix_cases (hkGraceIdx s now) now j l with e | ⟨hgj, e⟩
-    · rw [e]; exact ⟨hto, hsa, rfl⟩
+    · rw [e]; exact ⟨hto, hsa, fun _ => rfl⟩
     · rcases hg with hg | hg
       · exact absurd hgj hg
       · rw [e, isTimedOut_grace l _ now hg, shouldAttempt_grace l _ now hg]
-        exact ⟨hto, hsa, reconnectLink_grace l _ now⟩
+        exact ⟨hto, hsa, fun fails => attemptLink_grace fails l _ now⟩
   obtain ⟨v1, v2, v3⟩ := hview
   unfold hkLink
   rw [if_pos v1, if_pos v2, v3]
@@ -1842,6 +1993,15 @@ theorem hk_attempts (s : Sys F) (now j : Nat) (l : FLink F) (hl : s.links[j]? = 
     · exact ⟨_, rfl⟩
     · exact ⟨_, rfl⟩
   · exact ⟨_, rfl⟩
+
+/-- … in particular with no bind failure pending for the link's conn id the re-creation succeeds. -/
+theorem hk_attempts_ok (s : Sys F) (now j : Nat) (l : FLink F) (hl : s.links[j]? = some l)
+    (hto : l.isTimedOut now = true) (hsa : l.shouldAttemptReconnect now = true)
+    (hg : hkGraceIdx s now ≠ some j ∨ l.established ≠ 0) (hfb : l.core.connId ∉ s.failBind) :
+    ∃ t, (handleHousekeeping s now).1.links[j]? = some (withSent (reconnectLink l now) t) := by
+  obtain ⟨t, ht⟩ := hk_attempts s now j l hl hto hsa hg
+  rw [hkFails_false s now j _ hfb] at ht
+  exact ⟨t, ht⟩
 
 /-! ## 11. All events -/
 
@@ -1865,6 +2025,11 @@ inductive LinkStep (s : Sys F) (e : Ev) (j : Nat) (l l' : FLink F) : Prop
       (hl : l' = l.markForRecovery)
   | attempt (now : Nat) (he : e = .hk now) (hto : l.isTimedOut now = true)
       (hsa : l.shouldAttemptReconnect now = true) (hl : ∃ t, l' = withSent (reconnectLink l now) t)
+  /-- the reconnect attempt whose socket re-creation failed: an injected bind failure for this link's
+  conn id was pending -/
+  | attemptFailed (now : Nat) (he : e = .hk now) (hto : l.isTimedOut now = true)
+      (hsa : l.shouldAttemptReconnect now = true) (hfb : l.core.connId ∈ s.failBind)
+      (hl : ∃ t, l' = withSent (failedLink l now) t)
 
 theorem step_link (s : Sys F) (e : Ev) :
     (∀ (j : Nat) (l : FLink F), s.links[j]? = some l → ∃ l', (step s e).1.links[j]? = some l' ∧ LinkStep s e j l l') ∧
@@ -1904,17 +2069,20 @@ theorem step_link (s : Sys F) (e : Ev) :
     cases hs with
     | evolves h => exact .evolves none (Or.inl rfl) h
     | attempt hto hsa hl => exact .attempt now rfl hto hsa hl
+    | attemptFailed hto hsa hfb hl => exact .attemptFailed now rfl hto hsa hfb hl
   | setCfg cfg => exact ⟨hsame _ rfl, rfl, fun h => h⟩
   | crit d => exact ⟨hsame _ rfl, rfl, fun h => h⟩
   | failNext cid => exact ⟨hsame _ rfl, rfl, fun h => h⟩
+  | failBind cid => exact ⟨hsame _ rfl, rfl, fun h => h⟩
 
 /-! ## 12. Extras: REG2 on the wire, accounting of live links, REG_ERR recognition -/
 
 theorem hkLinksGo_wire_reg2 (classic : Bool) (now : Nat) (ls : List (FLink F)) (i : Nat) (reg : Reg.Reg)
+    (fb : List Nat)
     (hp : reg.pending = none) (j : Nat) (l : FLink F) (hl : ls[j]? = some l)
     (hto : l.isTimedOut now = true) (hsa : l.shouldAttemptReconnect now = true) :
-    (l.core.connId, Reg.buildReg2 reg) ∈ (hkLinksGo classic now ls i reg).2.2 := by
-  induction ls generalizing i j with
+    (l.core.connId, Reg.buildReg2 reg) ∈ (hkLinksGo classic now ls i reg fb).2.2 := by
+  induction ls generalizing i j fb with
   | nil => simp at hl
   | cons x rest ih =>
     rw [hkLinksGo_cons]
@@ -1931,7 +2099,7 @@ theorem hkLinksGo_wire_reg2 (classic : Bool) (now : Nat) (ls : List (FLink F)) (
       simp
     | succ j =>
       apply List.mem_append_right
-      exact ih (i + 1) j (by simpa using hl)
+      exact ih (i + 1) _ j (by simpa using hl)
 
 /-- Accounting fields a housekeeping tick never touches on a link that is not timed out. -/
 def Acct (l l' : FLink F) : Prop :=
